@@ -31,7 +31,7 @@ class C10(ProgramProperty):
             "converter that overlap records inherited from the inputs. Every input is observed (records, prefix_map, "
             "reverse_prefix_map, bimap, pattern_map, get_prefixes, get_uri_prefixes, expand / standardize / compress "
             "probes) before the derivation, after it, and after every follow-up. Non-trivial = the derivation "
-            "succeeded and at least one follow-up merged into a record inherited from an input.")
+            "succeeded and at least one follow-up merged into a record inherited from an input. 20 % of the remappings / rewirings are degenerate (empty mapping, unknown names only) and 30 % of the restrictions are all-or-nothing, so that an 'optimised' identity return shows.")
 
     def budget(self, tier):
         return 1500 if tier == "quick" else 40000
